@@ -725,10 +725,11 @@ impl<Octs: Octets> PeerDownNotification<Octs> {
             if COFF+1 == self.common_header().length() as usize {
                 return None
             }
-            Some({
-                BgpNotification::from_octets(self.octets.range(COFF+1..))
-                    .expect("parsed before")
-            })
+            // the same parse as in check(): the NOTIFICATION ends where its
+            // own length field says, not at the end of the BMP message
+            let mut parser = Parser::from_ref(&self.octets);
+            parser.advance(COFF+1).expect("parsed before");
+            Some(BgpNotification::parse(&mut parser).expect("parsed before"))
         } else {
             None
         }
